@@ -44,10 +44,10 @@ _FAM = {}
 
 def tree_family(tier, w, seed=0):
     if tier == "quick":
-        return TR.depth1(w, heavy=(w <= 32))
+        return TR.depth1(w, heavy=(w <= 32)) + TR.compositions(w) + TR.mixed_sign_equalities(w)
     k = (w, seed)
     if k not in _FAM:
-        out = TR.depth1(w, heavy=(w <= 64)) + TR.depth3(w)
+        out = TR.depth1(w, heavy=(w <= 64)) + TR.compositions(w) + TR.mixed_sign_equalities(w) + TR.depth3(w)
         d2 = TR.depth2(w, heavy=(w <= 16))
         random.Random(seed + w).shuffle(d2)
         out += d2[:D2_THOROUGH]
